@@ -1,6 +1,7 @@
 """C11 — unimock wiring: named mock API, argument order, un-mocked calls reach the real function."""
 from ..common import Report
-from ..corpus import load, load_repo_tests
+from ..corpus import load, load_repo_tests, load_repo_examples
+from ..docgen import load_repo_docs
 from ..crossgen import load_cross
 from ..deleg import strip
 from ..wrules import (FnModView, TraitView, trait_methods, impl_methods, impls_of, in_macro, last_seg, callee_of, UNIMOCK_ADT)
@@ -91,6 +92,8 @@ def run(tier):
     loaded += [(cfg, load_cross(rep, cfg, tier)) for cfg in configs]
     if tier == "thorough":
         loaded.append(("unimock_test", load_repo_tests(rep)))
+        loaded += [("unimock_test", ld) for ld in load_repo_examples(rep)]
+        loaded.append(("unimock_test", load_repo_docs(rep)))
     for cfg, ld in loaded:
         crate = ld.crate
         for exp in crate.expansions:
